@@ -141,6 +141,7 @@ func runC10(c *Ctx, tier string) {
 	runElementIndependence(c, "C10-P2", "runtime/sam/expr/agg")
 	runJoinSidesSwapTogether(c, "C10-J1")
 	runJoinDirDeclared(c, "C10-J2")
+	runSpillPartialsPairing(c, "C10-S4")
 }
 
 func recvType(cc *ssa.CallCommon) types.Type {
